@@ -380,6 +380,10 @@ pub fn supervisor_main(info: &CheckInfo, total_runs: u64, tier: Tier, verif_seed
     let timeout = Duration::from_secs(info.per_run_timeout_s);
 
     let mut live = slots.len();
+    let mut deaths = 0u64;
+    let mut stopped_early = false;
+    let mut confirmed_by_class: BTreeMap<String, u64> = BTreeMap::new();
+    let mut unconfirmed_by_class: BTreeMap<String, u64> = BTreeMap::new();
     while live > 0 {
         let msg = rx.recv_timeout(Duration::from_millis(500));
         match msg {
@@ -446,7 +450,7 @@ pub fn supervisor_main(info: &CheckInfo, total_runs: u64, tier: Tier, verif_seed
             }
             Ok(Msg::Eof(s)) => {
                 let status = slots[s].child.wait().expect("wait");
-                if slots[s].done && status.success() {
+                if slots[s].done && (status.success() || stopped_early) {
                     live -= 1;
                     continue;
                 }
@@ -462,6 +466,33 @@ pub fn supervisor_main(info: &CheckInfo, total_runs: u64, tier: Tier, verif_seed
                 };
                 let timed_out = stderr.contains("SUPERVISOR-TIMEOUT");
                 let (class, detail) = death_class(&status, &stderr, i, timed_out);
+                deaths += 1;
+                // When a whole class of runs dies (a change that makes many cases hang or overflow), every
+                // death is not confirmed again: three confirmed deaths of a class establish it, the rest are
+                // counted; after 200 deaths the batch stops early (the verdict is already a violation).
+                if confirmed_by_class.get(&class).cloned().unwrap_or(0) >= 3 {
+                    *unconfirmed_by_class.entry(class.clone()).or_insert(0) += 1;
+                    done_runs += 1;
+                    let next = i + slots[s].stride;
+                    if next < slots[s].end && deaths < 200 {
+                        gen += 1;
+                        let (stride, end) = (slots[s].stride, slots[s].end);
+                        slots[s] = spawn_worker(&exe, id, tier, verif_seed, next, stride, end, s, &work, &tx, gen);
+                    } else {
+                        live -= 1;
+                    }
+                    if deaths >= 200 && !stopped_early {
+                        stopped_early = true;
+                        for k in 0..slots.len() {
+                            if k != s {
+                                let _ = slots[k].child.kill();
+                                slots[k].done = true;
+                                slots[k].current = None;
+                            }
+                        }
+                    }
+                    continue;
+                }
                 // confirm: re-execute run i alone, twice, announcing each library call, so that the
                 // signature can name the call being made
                 let mut confirmed = 0;
@@ -493,6 +524,7 @@ pub fn supervisor_main(info: &CheckInfo, total_runs: u64, tier: Tier, verif_seed
                     }
                 }
                 if confirmed == 2 {
+                    *confirmed_by_class.entry(class.clone()).or_insert(0) += 1;
                     let case = json!({"property": id, "kind": "run-index", "verif_seed": verif_seed, "tier": tier.name(), "run": i});
                     let e = viols.entry(sig.clone()).or_insert((0, J::Null, String::new(), u64::MAX));
                     e.0 += 1;
@@ -608,7 +640,9 @@ pub fn supervisor_main(info: &CheckInfo, total_runs: u64, tier: Tier, verif_seed
             }
         }
     }
-    if done_runs != total_runs {
+    if stopped_early {
+        println!("{} {}: stopped early after {} worker deaths ({:?} confirmed, {:?} further deaths counted without confirmation)", id, tier.name(), deaths, confirmed_by_class, unconfirmed_by_class);
+    } else if done_runs != total_runs {
         harness_errors.push(format!("{} of {} runs completed", done_runs, total_runs));
     }
 
@@ -630,6 +664,8 @@ pub fn supervisor_main(info: &CheckInfo, total_runs: u64, tier: Tier, verif_seed
             "components": {"real": info.components_real, "stub": info.components_stub},
             "determinism_selfcheck": {"runs_reexecuted_in_other_process": det_checked, "mismatches": det_mismatch},
             "known_findings_hit": known_hit,
+            "worker_deaths": deaths,
+            "stopped_early_after_many_worker_deaths": stopped_early,
             "workers": w_count,
         },
         "assumptions": info.assumptions,
